@@ -1,4 +1,5 @@
 import AsmjitVerif.Model.Frame
+import AsmjitVerif.Model.RAStack
 import AsmjitVerif.Spec.FrameSpec
 import Driver.Common
 open AsmjitVerif.Frame
@@ -173,6 +174,50 @@ def frameOp (ws : List String) : String :=
     | _, _, _, _, _, _, _, _ => "bad-op"
   | _ => "bad-op"
 
+/-! ### `seq`: a convention (optionally with custom preserved masks), `init`, then any sequence of public-API operations -/
+
+def parseOp (t : String) : Option FrameOp :=
+  match t.splitOn ":" with
+  | ["sls", v] => v.toNat?.map .setLocalSize
+  | ["sla", v] => v.toNat?.map .setLocalAlign
+  | ["scs", v] => v.toNat?.map .setCallSize
+  | ["sca", v] => v.toNat?.map .setCallAlign
+  | ["uls", v] => v.toNat?.map .updLocalSize
+  | ["ula", v] => v.toNat?.map .updLocalAlign
+  | ["ucs", v] => v.toNat?.map .updCallSize
+  | ["uca", v] => v.toNat?.map .updCallAlign
+  | ["aat", v] => (hexNat? v).map .addAttrs
+  | ["cat", v] => (hexNat? v).map .clearAttrs
+  | ["sd", g, m] => do some (.setDirty (← g.toNat?) (← hexNat? m))
+  | ["ad", g, m] => do some (.addDirty (← g.toNat?) (← hexNat? m))
+  | ["sad"] => some .setAllDirty
+  | ["ssa", r] => r.toNat?.map .setSaReg
+  | ["rsa"] => some .resetSaReg
+  | ["rrz"] => some .resetRedZone
+  | ["uffr", d0, d1, d2, d3, sa, ok] => do
+    let sa ← if sa = "-" then some none else sa.toNat?.map some
+    some (.updateFuncFrame (← hexNat? d0) (← hexNat? d1) (← hexNat? d2) (← hexNat? d3) sa (ok = "1"))
+  | _ => none
+
+def seqOp (ws : List String) : String :=
+  match ws with
+  | [arch, cc, win, argStack, u0, u1, u2, u3, pm, ops] =>
+    match arch.toNat? >>= archOf, cc.toNat?, win.toNat?, argStack.toNat?, [u0, u1, u2, u3].mapM hexNat?,
+          (if pm = "-" then some none else ((pm.splitOn ",").mapM hexNat?).map some),
+          (if ops = "-" then some [] else (ops.splitOn ",").mapM parseOp) with
+    | some a, some cc, some win, some argStack, some us, some pm, some ops =>
+      match initCallConv a cc (win != 0) with
+      | none => "err InvalidArgument"
+      | some ci =>
+        let ci := match pm with
+          | some l => if l.length = 4 then ci.withPreserved (fun g => l.getD g 0) else ci
+          | none => ci
+        let used : Nat → Nat := fun g => if g < 4 then us.getD g 0 else 0
+        let f := ((Frame.init ci used argStack).applyAll ops).finalize
+        "ok " ++ fieldsText f ++ " | " ++ progOut a (prolog f) ++ " | " ++ progOut a (epilog f)
+    | _, _, _, _, _, _, _ => "bad-op"
+  | _ => "bad-op"
+
 def monOp (rest : String) : String :=
   match rest.splitOn " | " with
   | [fields, pro, epi] =>
@@ -189,10 +234,75 @@ def monOp (rest : String) : String :=
       | _, none => "BAD unknown-instruction-in-epilog"
   | _ => "bad-op"
 
+/-! ### `RAStackAllocator`
+
+  rasm <size:align:flags:use,...> | <ids in the order the implementation's sort produced>
+      -> ok <alignment> <stack_size> <id:weight:offset ...>           (the model's placement in that order)
+  rasmon <slots> | <alignment> <stack_size> <id:weight:offset ...>   (the implementation's answer)
+      -> good | BAD <reason>
+-/
+
+def parseSlots (t : String) : Option (List RASlot × Nat) :=
+  if t = "-" then some ([], 1) else
+  (t.splitOn ",").foldlM (fun (acc : List RASlot × Nat) x =>
+    match (x.splitOn ":").mapM String.toNat? with
+    | some [size, align, flags, use] =>
+      let (sl, al) := newSlot acc.2 size align flags
+      some (acc.1 ++ [{ sl with useCount := u32 use }], al)
+    | _ => none) ([], 1)
+
+def rasmOp (rest : String) : String :=
+  match rest.splitOn " | " with
+  | [slots, order] =>
+    match parseSlots slots.trimAscii.toString, ((words order).filter (· ≠ "-")).mapM String.toNat? with
+    | some (ss, al), some ids =>
+      if !(ids.length == ss.length && (List.range ss.length).all ids.contains) then "BAD order-not-a-permutation" else
+      let sorted := ids.map fun i => ss.getD i default
+      let (out, stackSize) := calculate al sorted
+      "ok " ++ toString al ++ " " ++ toString stackSize ++
+        String.join ((ids.zip out).map fun (i, s) => " " ++ toString i ++ ":" ++ toString s.weight ++ ":" ++ toString s.offset)
+    | _, _ => "bad-op"
+  | _ => "bad-op"
+
+/-- the property of the slot layout, judged on the implementation's numbers -/
+def slotsMonitor (ss : List RASlot) (al stackSize : Nat) (placed : List (Nat × Nat)) : Option String :=
+  let ids := placed.map Prod.fst
+  if !(ids.length == ss.length && (List.range ss.length).all ids.contains) then some "order-not-a-permutation" else
+  let real : List (RASlot × Nat) := placed.filterMap fun (i, off) =>
+    let s := ss.getD i default
+    if s.isStackArg then none else some (s, off)
+  if !(al != 0 && stackSize % al == 0) then some "stack-size-not-aligned" else
+  if !(real.all fun (s, off) => s.align != 0 && off % s.align == 0) then some "slot-misaligned" else
+  if !(real.all fun (s, off) => decide (off + s.size ≤ stackSize)) then some "slot-outside-stack" else
+  if !((List.range real.length).all fun i => (List.range real.length).all fun j =>
+        i == j || (let a : RASlot × Nat := real.getD i default
+                   let b : RASlot × Nat := real.getD j default
+                   decide (a.2 + a.1.size ≤ b.2) || decide (b.2 + b.1.size ≤ a.2))) then some "slots-overlap" else
+  if !(real.all fun (s, _) => decide (s.align ≤ al)) then some "allocator-alignment-too-small" else
+  none
+
+def rasmonOp (rest : String) : String :=
+  match rest.splitOn " | " with
+  | [slots, ans] =>
+    match parseSlots slots.trimAscii.toString, words ans with
+    | some (ss, _), al :: sz :: placed =>
+      match al.toNat?, sz.toNat?, placed.mapM (fun t => match (t.splitOn ":").mapM String.toNat? with
+                                                  | some [i, _, off] => some (i, off) | _ => none) with
+      | some al, some sz, some pl =>
+        match slotsMonitor ss al sz pl with
+        | none => "good"
+        | some r => "BAD " ++ r
+      | _, _, _ => "bad-op"
+    | _, _ => "bad-op"
+  | _ => "bad-op"
+
 def step (_ : Unit) (line : String) : Unit × String :=
   if line.startsWith "mon " then ((), monOp (line.drop 4).toString)
+  else if line.startsWith "rasm " then ((), rasmOp (line.drop 5).toString)
+  else if line.startsWith "rasmon " then ((), rasmonOp (line.drop 7).toString)
   else match words line with
     | "frame" :: rest => ((), frameOp rest)
+    | "seq" :: rest => ((), seqOp rest)
     | _ => ((), "bad-op")
 
 def main : IO Unit := do
